@@ -34,13 +34,16 @@ type Op struct {
 }
 
 type Case struct {
+	// Thresh is the pool's object-size threshold: a small value makes one load (and one compaction) create several
+	// objects, so that single commits add more than one object.
+	Thresh  int64     `json:"thresh,omitempty"`
 	File    bool      `json:"file_mode"`
 	Batches []gen.Seq `json:"batches"`
 	Ops     []Op      `json:"ops"`
 }
 
 func genCase(t *rapid.T) Case {
-	c := Case{File: rapid.Bool().Draw(t, "file")}
+	c := Case{File: rapid.Bool().Draw(t, "file"), Thresh: rapid.SampledFrom([]int64{0, 0, 25, 25, 60}).Draw(t, "thresh")}
 	nb := rapid.IntRange(2, 4).Draw(t, "nb")
 	for i := 0; i < nb; i++ {
 		var sb strings.Builder
@@ -267,6 +270,9 @@ func (r *runner) step(i int, op Op) *vt.Failure {
 		}
 		if d := oracle.SameMultiset(vals, fresh); d != "" {
 			return fail("C15/load-content", "step %d: objects added by the load differ from the loaded values: %s", i, d)
+		}
+		if len(got)-len(before) >= 2 {
+			r.o.Label("multi-object-commit")
 		}
 		r.record(br, "load", tip, before, got)
 	case "delete":
@@ -535,7 +541,7 @@ func runCase(c Case) *vt.Outcome {
 		o.Fail = fail("C15/setup", "%v", err)
 		return o
 	}
-	pool, err := lk.CreatePool(ctx, lakeh.PoolSpec{Name: "p", Key: []string{"k"}})
+	pool, err := lk.CreatePool(ctx, lakeh.PoolSpec{Name: "p", Key: []string{"k"}, Thresh: c.Thresh})
 	if err != nil {
 		o.Fail = fail("C15/setup", "%v", err)
 		return o
